@@ -463,7 +463,7 @@ def correspondence(ctx):
                                                    "ops": case["ops"]}, m, i))
         total += len(case["ops"])
     # (a) structural histories through cached / fresh handles, reopen r / a at the end
-    n_hist = ctx.budget(10, 100)
+    n_hist = ctx.budget(14, 100)
     steps = ctx.budget(80, 110)
     for h in range(n_hist):
         rng = random.Random("%s/store/%d/%d" % (PROP, ctx.seed, h))
@@ -488,7 +488,7 @@ def correspondence(ctx):
         if h < 2:
             samples.append({"history": h, "first_ops": ops[:5], "first_outputs": outs[:5]})
     # (b) the handle machine against H5Group
-    n_hm = ctx.budget(60, 800)
+    n_hm = ctx.budget(120, 1000)
     hm_ops = ctx.budget(60, 90)
     hm_total = 0
     for h in range(n_hm):
@@ -752,10 +752,12 @@ class Rich:
             self.attempt(["create_data_array", str(np.dtype(dt)), list(shape)],
                          lambda: b.create_data_array(self.name(), "t", data=data))
         elif what == "df":
-            cols = {"n": [1, 2, 3][:rng.randrange(1, 4)], "s": ["a", "é", ""][:rng.randrange(1, 4)]}
-            n = min(len(cols["n"]), len(cols["s"]))
-            cols = {k: v[:n] for k, v in cols.items()}
-            self.attempt(["create_data_frame", n], lambda: b.create_data_frame(self.name(), "t", col_dict=cols))
+            from collections import OrderedDict
+            n = rng.randrange(0, 4)
+            rows = [(i + 1, ["a", "é", ""][i % 3], 0.5 * i) for i in range(n)]
+            cols = OrderedDict([("n", int), ("s", str), ("x", float)])
+            self.attempt(["create_data_frame", n],
+                         lambda: b.create_data_frame(self.name(), "t", col_dict=cols, data=rows or None))
         elif what == "group":
             self.attempt(["create_group"], lambda: b.create_group(self.name(), "t"))
         elif what == "tag":
@@ -934,6 +936,8 @@ class Rich:
         if not ents:
             return
         p, e = rng.choice(ents)
+        if isinstance(e, nixio.Block) and rng.random() < 0.7:
+            return
         try:
             ids = [e.id]
             if isinstance(e, nixio.Section):
@@ -1175,7 +1179,7 @@ def fixed_scenarios(ctx):
 
 
 def oracle(ctx, broken, hints):
-    n = ctx.budget(6, 60) * (3 if broken else 1)
+    n = ctx.budget(12, 80) * (3 if broken else 1)
     steps = ctx.budget(70, 120)
     failures, evals = [], 0
     fs, e = fixed_scenarios(ctx)
